@@ -18,8 +18,9 @@ func init() {
 			"no explicit flow of crash text into a counter name: string sinks are constants or EncodeStack(pcs, constant prefix); the PCs derive from the text only through the integer declassifiers strconv.ParseUint and Sscanf(\"sentinel %x\") and arithmetic",
 			"control dependence inventory: every branch that depends on crash text compares it only with compile-time constants; the trap adjustment is taken exactly on equality with \"runtime.sigpanic\"",
 			"at most 16 frames are encoded; EncodeStack's result is bounded (C15.length); index/slice/loop obligations of the parser are discharged; no explicit panic",
+			"relocation, as a linear form: every appended PC is parsed pc − parent's sentinel + this process' sentinel (+1 exactly after a sigpanic frame); the PC text is everything after the pc= marker",
 		},
-		notDecided: []string{"that frames of a genuine traceback name the right functions and lines (symbolisation)", "the relocation arithmetic's correctness"},
+		notDecided: []string{"that frames of a genuine traceback name the right functions and lines (symbolisation)", "that the linear relocation is the right model of how the runtime lays out text segments (ASLR slide equal for all functions)"},
 	})
 }
 
